@@ -1,9 +1,12 @@
 mod actions;
 mod chain;
 mod deploy;
+mod enumer;
 mod explore;
+mod fee;
 mod hubcore;
 mod obs;
+mod params;
 mod props;
 mod runner;
 mod unbondlc;
